@@ -302,8 +302,9 @@ Step_C06 ==
             ELSE IF Broke(c)
             THEN /\ Issued = {}
                  /\ bal' = bal
-                 \* (paused - and then killed, if that is how its module answers the state callback)
-                 /\ ctx'[e.id].state = IF ReactedOK(e.id, "kill") THEN "completed" ELSE "paused"
+                 \* (paused - and then killed or started again, if that is how its module answers the state callback)
+                 /\ ctx'[e.id].state = IF ReactedOK(e.id, "kill") THEN "completed"
+                                       ELSE IF ReactedOK(e.id, "start") THEN "running" ELSE "paused"
             ELSE /\ {req'[r].prov : r \in Issued} = Range(E)
                  /\ Cardinality(Issued) = Len(E)
                  /\ \A r \in Issued : req'[r].fee <= c.cap
@@ -392,13 +393,15 @@ Step_C09 ==
                   \/ (e.name = "StartBatch" /\ onMe /\ Broke(o) /\ Issued = {})
                   \/ (ReactedOK(id, "pause") /\ o.rep)
             /\ (o.state = "paused" /\ n.state = "running") =>
-                  (e.name \in {"Start", "ModStart"} /\ e.ok /\ onMe)
+                  \/ (e.name \in {"Start", "ModStart"} /\ e.ok /\ onMe)
+                  \/ ReactedOK(id, "start")
             /\ (o.state # "completed" /\ n.state = "completed") =>
                   \/ (e.name \in {"Kill", "ModKill"} /\ e.ok /\ onMe /\ o.rep)
                   \/ (ReactedOK(id, "kill") /\ o.rep)
-            \* a pause or kill the module made from inside a callback is a pause or kill like any other
+            \* a pause, kill or start the module made from inside a callback is one like any other
             /\ ReactedOK(id, "pause") => n.state = "paused"
             /\ ReactedOK(id, "kill") => n.state = "completed"
+            /\ ReactedOK(id, "start") => n.state = "running"
             /\ n.batch \in {o.batch, o.batch + 1}
             /\ (n.batch = o.batch + 1) =>
                   (e.name = "StartBatch" /\ onMe /\ o.state = "running" /\ n.state = "running")
